@@ -38,7 +38,7 @@ L("rp_witness", props=["C04", "C07"], expect="fail", functions="-", claim="vacui
 
 # --------------------------------------------------------------------------------------------
 # renetcode: packet decode / encode  (C04, C07, C13, C16, C17, C19)
-PK = dict(crate="renetcode", file="packet.rs", variant={"fs": 512}, stubs="chacha20poly1305 primitive -> models/chacha.rs (identity cipher, recorded calls)")
+PK = dict(crate="renetcode", file="packet.rs", variant={"fs": 512}, mem_gb=18, stubs="chacha20poly1305 primitive -> models/chacha.rs (identity cipher, recorded calls)")
 L("dec_total", props=["C07", "C19"], functions="Packet::decode, read_sequence, decode_prefix, Packet::read, crypto::dencrypted_in_place, ReplayProtection::*",
   claim="decode returns normally for every datagram; request only from >=1078 B, response only from >=325 B",
   bound="all datagrams of every length 0..=1400 (all bytes symbolic), AEAD verdict nondeterministic", **PK)
@@ -319,3 +319,36 @@ for nm in ("small_packet_packed", "small_packet_single", "slice_packet", "ack_pa
     L(nm, crate="-", file="-", props=["C13"], kind="smt", functions="constants of renet/src/packet.rs, renetcode/src/lib.rs, renet/src/remote_connection.rs",
       claim="size side condition over all field widths", bound="unbounded (linear integer arithmetic)")
 L("no_amplification", crate="-", file="-", props=["C19"], kind="smt", functions="constants of renetcode/src/lib.rs", claim="every handshake reply is strictly smaller than the smallest datagram that can trigger it", bound="unbounded")
+
+# --------------------------------------------------------------------------------------------
+# per-property notes (MANIFEST level_note / evidence bounds)
+_COMMON = ("one-step lemmas over symbolic inputs and symbolic pre-states (induction over histories is the argument of DESIGN.md section 4, not machine-checked); "
+           "model containers with <= 2-3 live entries per map (occupancy fixed per harness instance), LenBytes/VecBytes models of bytes::Bytes, ids/sequences < 2^62, "
+           "whole-second clocks; see DESIGN.md section A for what is outside each claim")
+_NC = ("chacha20poly1305 primitive replaced by a recording identity cipher / ideal AEAD (crypto.rs itself is real); tamper-evidence of the primitive is trusted; "
+       "datagram buffers 64..1400 B as stated per harness; server table shrunk to 2 slots (NETCODE_MAX_CLIENTS literal rewritten)")
+for _p, _txt, _out in (
+        ("C01", _COMMON, "RenetClient-level glue (sent_packets, dispatch), more than 3 slices per message, liveness composition"),
+        ("C02", _COMMON, "as C01"),
+        ("C03", _COMMON, "dispatch to the right channel inside RenetClient::process_packet; wire form of > 2 small messages only via sizes (rs_size_small_n3)"),
+        ("C04", _NC, "server-side attribution lemma (srv_surface_*) pruned; key secrecy; the primitive"),
+        ("C05", _NC, "request path on an AUTHENTIC token (expiry / host list), response path (srv_resp_guard_* pruned), token parsing"),
+        ("C06", _COMMON, "parser inputs > 8 B in the quick tier (12 B thorough); RenetClient::process_packet dispatch glue; server other-connection frame for packets"),
+        ("C07", _NC, "token parsing (pruned), server frame conditions (pruned), client frame conditions are thorough-only"),
+        ("C08", _COMMON, "sent_packets bookkeeping and ack dispatch inside RenetClient (ack_release / sp_step / ack_emit not built); acks assumed unforgeable"),
+        ("C09", _COMMON, "SLICE_SIZE literal rewritten to 8 for receive-side slice lemmas; drain composition on paper"),
+        ("C10", _NC, "only disconnect(id) is decided (request / response / timeout paths pruned)"),
+        ("C11", _COMMON, "only disconnect and the broadcast lemmas (send / receive / packet frame lemmas exceed memory)"),
+        ("C12", _COMMON, "remove_connection / local-client events and process_packet on a disconnected client not decided (exceed memory)"),
+        ("C13", _COMMON + "; " + _NC, "RenetClient serialization loop; wire form of >= 3 small messages by content"),
+        ("C14", _COMMON, "budget threading ACROSS channels in RenetClient::get_packets_to_send (per-channel only)"),
+        ("C15", _COMMON, "sent_packets 3 s horizon (sp_horizon not built)"),
+        ("C16", _COMMON + "; " + _NC, "connect tokens (pruned); renet round trips and reverse round trips are thorough-only; real cipher round trip"),
+        ("C17", _NC, "bit flips through the real Poly1305 (trusted primitive); server step lemmas other than init / disconnect"),
+        ("C18", _NC, "server-side timeouts and handshake progress (pruned); temporal composition on paper"),
+        ("C19", _NC, "request path on an authentic token; response path"),
+):
+    PROPERTY_META[_p] = {"level_note": "trusted: rustc/Kani translation, CBMC 6.11 + cadical, z3/cvc5 for constant arithmetic; " + _txt + ". OUTSIDE the claim: " + _out,
+                         "bounds": _txt, "outside": _out,
+                         "assumptions": ["peer's renet layer is the real one for C01-C03/C08/C09/C14/C15 (hostile peers are C06)", "counters < 2^62 / 2^63", "AEAD primitive ideal",
+                                         "model containers refine std on the API subset used"]}
